@@ -27,6 +27,7 @@ ASSUMPTIONS = [
     'insertion-ordered association list with == on keys, enumerate, iter, operator.contains on a list = some item == x), '
     'that execute_query returns (columns, rows) with rows as the theorems state (an explicit hypothesis), that a compiled '
     'expression exposes its datatype as .dtype',
+    'translator tie of the statement level (bld-compiler3; C08_source_table_restored; Gen/SrcSelect.v regenerated from compiler.py on every run): trusted in addition to the C05_source_* base: translator rules K12-K14 of harness/vf/src_compiler.py - K12 STATE THREADING: a call `x = self.m(..)` of a Compiler method that may assign self.table (the set of such attributes and methods is recomputed from the live class by threading_info and emitted next to the terms; the proofs check it is ["table"]) is read as `self.table, x = self.m(self.table, ..)`, i.e. an opaque callable that receives the table and returns the table it leaves behind next to its value; such a call anywhere else than as the whole right-hand side of an assignment is rejected; K13 set(..)/set comparison as order-insensitive list operations; K14 the leading constant of \'..{}\'.format(..) selects the exception kind - and the encodings of coq/Model/PrimsSelect.v: a table is any value with hasattr(t,\'update\') / t.update(open=,close=,clear=) uninterpreted, EvalQuery / EvalPivot are records of their constructor arguments, str.format/join are uninterpreted text; the receiver\'s attributes are a concrete prefix (its table and its methods as opaque callables) followed by an arbitrary rest; what the opaque callables return is a hypothesis of each theorem (the model\'s value; for C08_source_table_restored: ANY table and any well-shaped result)',
 ]
 IMPORTS = c01.IMPORTS + ['Model.Subquery']
 
@@ -460,6 +461,8 @@ def generate():
     the rules and the structural reading of the column factory in src_subquery.py)"""
     from . import gen_src, src_subquery
     out = dict(gen_src.generate('subquery'))
+    # bld-compiler3: C08_source_table_restored is stated over coq/Gen/SrcSelect.v (Compiler._select); same group as C05
+    out.update(gen_src.generate('select'))
     out['src_subquery_rules_used'] = list(src_subquery.SubqueryGroup.info.get('rules_used', []))
     out['src_subquery_column_factory'] = dict(src_subquery.SubqueryGroup.info.get('column_factory', {}))
     return out
